@@ -1,6 +1,6 @@
 SPECIFICATION Spec
 CONSTANTS
-  ItemCodes = {"Ra", "RB", "Rb", "Rz", "Ga", "Gb", "O", "M", "P", "Q", "A"}
+  ItemCodes = {"Ra", "RB", "Rb", "Ga", "O", "M", "P", "Q"}
   MaxLen = 3
   MaxDev = 2
   DevTypes = {"sep", "dir", "semi", "cmt", "lead", "mline", "range"}
